@@ -2,6 +2,7 @@
 # All rights reserved.
 # This software is licensed under the BSD 3-Clause License.
 """Implement the SyncedCollection class."""
+import math
 from abc import abstractmethod
 from collections import defaultdict
 from collections.abc import Collection
@@ -36,6 +37,26 @@ def _detached(value):
     if _sc_resolver.get_type(value) == "SYNCEDCOLLECTION":
         return value._to_base()
     return value
+
+
+def _is_unchanged_scalar(new_value, existing):
+    """Check whether storing ``new_value`` over ``existing`` would change nothing.
+
+    The in-place merge skips entries that are already up to date. Plain
+    equality is too coarse for that: ``True == 1 == 1.0`` and ``0.0 == -0.0``
+    although they are different JSON values, and containers holding such values
+    compare equal as well. Only scalars of the same type (and, for floats, the
+    same sign) are therefore considered unchanged; containers are always merged
+    recursively.
+    """
+    cls = type(new_value)
+    if cls is not type(existing) or cls not in (str, int, float, bool, type(None)):
+        return False
+    if cls is float:
+        return new_value == existing and math.copysign(1.0, new_value) == math.copysign(
+            1.0, existing
+        )
+    return new_value == existing
 
 
 class _LoadAndSave:
